@@ -266,8 +266,15 @@ def run_emu(case, ctx):
         try:
             tr = dict(case)
             tr["mkorder"] = order
-            T.write_trace(tr, d)
-            r = tools.emu(b, d, ("-l",))
+            flags = ["-l"]
+            if case.get("offsets") and order is not case["mkorder"] and len(case["streams"]) % 2 == 0:
+                # same table given with -c <file> instead of <tracedir>/clock-offsets.txt
+                T.write_trace(tr, d)
+                os.rename(os.path.join(d, "clock-offsets.txt"), os.path.join(d, "offsets-elsewhere.txt"))
+                flags = ["-c", os.path.join(d, "offsets-elsewhere.txt"), "-l"]
+            else:
+                T.write_trace(tr, d)
+            r = tools.emu(b, d, flags)
             if not r.ok:
                 raise Violation("emulator rejected a sorted trace with offsets: %s" % r.brief())
             try:
